@@ -34,7 +34,7 @@ ASSUMPTIONS = ["'any sequence of other pyrepseq calls' is explored over a fixed 
 
 REFS = {}
 PROCESS_LOG = []
-STATEFUL = {"colors_tableau_seeded", "colors_tableau_many_seeded", "colors_hls_many_labels_seeded", "rankfrequency_ndarray_counts",
+STATEFUL = {"background", "standardize_shared_mapper", "standardize_mapper", "colors_tableau_seeded", "colors_tableau_many_seeded", "colors_hls_many_labels_seeded", "rankfrequency_ndarray_counts",
             "persistent_tcr_metrics", "persistent_string_metrics", "persistent_pcDelta_metric", "persistent_symdeldb",
             "persistent_symdeldb_hamming", "persistent_lookupdb_k2", "persistent_lookupdb_k1", "hierarchical_two_sequences_default", "hierarchical_large_default", "tcr_metric_objects_coexist", "multimerge_inner",
             "count_arrays", "pc_conditional_weight_array", "hierarchical_default_table", "nn_default_other_content", "symdel_k2_other_content_ndarray", "kdtree_ndarray_other_content",
